@@ -5,6 +5,7 @@ use serde_json::Value;
 
 pub mod c03;
 pub mod c06;
+pub mod c11;
 
 pub struct PropDef {
     pub id: &'static str,
@@ -24,6 +25,13 @@ pub static PROPS: &[PropDef] = &[
         level: "exploration",
         run: c03::run,
         replay: c03::replay,
+        workers: w16,
+    },
+    PropDef {
+        id: "C11",
+        level: "exploration",
+        run: c11::run,
+        replay: c11::replay,
         workers: w16,
     },
     PropDef {
